@@ -13,6 +13,8 @@ LEAN_TB = [
 # driver commands answered by an independent specification (Bita/Spec/*), not by the model of the code
 SPEC_CMDS = {"chunk-spec", "http-spec", "runs", "plan-safe"}
 
+NOT_APPLICABLE = {}
+
 L1 = os.path.join(core.TARGET, "debug", "l1")
 
 
@@ -33,6 +35,15 @@ def run_suite(pid, suite, seed, tier):
 
 PROPS = {
     "C07": dict(
+        level_text="Lean 4 theorem requests_are_maximal_runs: for every chunk list, retry budget and body fragmentation, the range "
+                   "requests of the model of HttpReader::read_chunks are exactly the maximal runs of adjacent chunks (independent spec "
+                   "maximalRuns, itself proved lossless, contiguous and maximal), one request per run with first-byte/last-byte bounds; "
+                   "tied to the code by differential runs of the real HttpReader against a scripted HTTP server (every subset of small "
+                   "archives exhaustively + random lists).",
+        level_note="Trusted: Lean kernel; hand-written model of http_reader.rs/http_range_request.rs tied by correspondence only; "
+                   "reqwest/hyper not modelled; hypothesis: no transfer failure, chunk sizes >= 1, honest server.",
+        technique="Lean 4 proof (refinement of the reader state machine to a run-level spec, induction over script and chunk list) + differential correspondence",
+        design_ref="DESIGN.md 5/C07",
         module="Bita.Props.C07",
         level="proof",
         required_theorems=["requests_are_maximal_runs", "maximalRuns_spec", "runRequest_bounds"],
@@ -45,6 +56,15 @@ PROPS = {
         assumptions=["no transfer failures (C07's own hypothesis); chunk sizes >= 1; server returns the requested range"],
     ),
     "C08": dict(
+        level_text="Lean 4 theorems: http_resume (the HTTP chunk reader model equals the run-level resume specification for every chunk "
+                   "list, budget and failure script), http_items_exact_prefix (exact prefix, then at most one error), fetchRun_requests "
+                   "(each re-request ends at the run end and starts at the first missing byte), io_reader_sound / io_reader_complete "
+                   "(local reader exact under any short-read/Pending/error script). Tied to the code by differential runs against a "
+                   "scripted HTTP server (every cut offset x budgets exhaustively for a two-chunk run, random scripts) and a scripted file.",
+        level_note="Trusted: Lean kernel; hand-written models tied by correspondence; how reqwest/hyper surface refusals, cut bodies and "
+                   "early ends is observed, not modelled (partial w.r.t. the HTTP stack); read_at retries from scratch (not a chunk transfer).",
+        technique="Lean 4 proof (invariant of the reader state machine by induction on the failure script) + differential correspondence",
+        design_ref="DESIGN.md 5/C08",
         module="Bita.Props.C08",
         level="proof",
         required_theorems=["http_resume", "http_items_exact_prefix", "fetchRun_requests", "io_reader_sound", "io_reader_complete"],
@@ -57,5 +77,47 @@ PROPS = {
                                 "early end (observed through the scripted server, not modelled)"],
         assumptions=["a server that, when it answers, returns the bytes of the requested range; chunk sizes >= 1",
                      "theorems are about the state-machine model; partial with respect to the HTTP stack itself"],
+    ),
+    "C09": dict(
+        level_text="Lean 4 theorems: stream_independent_of_delivery (for every valid configuration, source and complete read script - any "
+                   "fragment sizes, Pendings anywhere - the streaming chunker model emits the same chunks as a single read), "
+                   "chunkAll_eq_specChunks (those chunks are exactly the pure rule Spec.specChunks: least length >= max(min,1) whose "
+                   "trailing-window hash has all filter bits set, else max, else tail), rollsum/buzhash_is_window_function (closed forms "
+                   "of both rolling hashes over the trailing window, repeat-skip optimisation included), chunks_tile, chunk_size_bounds. "
+                   "No bound on sizes. Tied to the code by differential runs of the real chunker under scripted AsyncRead delivery: all "
+                   "strings up to length 7 (9 thorough) over 3 letters x 81 small configs, every read fragmentation for short strings, random "
+                   "run-laden inputs and configs, chunks larger than the 1 MiB refill buffer.",
+        level_note="Trusted: Lean kernel; ring buffer modelled as FIFO; wrapping u32 arithmetic as BitVec 32; interpretation I1 (BuzHash "
+                   "warm-up) stated in the spec; hypothesis Config.Valid (1<=window<=max, min<=max, 1<=bits<=30; fixed n>=1).",
+        technique="Lean 4 proof (compositionality of next() in the buffered length, hash-state invariants, refinement to a pure spec) + differential correspondence",
+        design_ref="DESIGN.md 5/C09",
+        module="Bita.Props.C09",
+        level="proof",
+        required_theorems=["stream_independent_of_delivery", "chunkAll_eq_specChunks", "chunks_follow_rule", "chunks_tile",
+                           "chunk_size_bounds", "rollsum_is_window_function", "buzhash_is_window_function"],
+        suites=dict(quick=[("l1", "c09")], thorough=[("l1", "c09")]),
+        rule="real Config::new_chunker on a scripted AsyncRead; compared: the (offset,length) list against the model run under the reads "
+             "actually delivered (chunk) and against the pure rule (chunk-spec, the property's oracle); harness oracle: contiguity, bytes, "
+             "coverage, min/max bounds; a case is distinct by its request line",
+        trusted_base=LEAN_TB + ["tokio AsyncReadExt::read_buf / BytesMut capacity behaviour (observed: the harness logs what each read delivered)"],
+        assumptions=["valid configuration (Config.Valid)", "I1: BuzHash consults no hash during its first `window` stream bytes"],
+    ),
+    "C10": dict(
+        level_text="Lean 4 theorems: spec_resync (for every valid rolling configuration, prefixes P1,P2 and suffix S: a common chunk end at "
+                   "least one window into S makes all later chunks identical), fixed_resync, and resync (the same about the streaming "
+                   "chunker model under any two complete deliveries, via C09's theorems). Tied to the code through C09's correspondence "
+                   "plus prefix-pair runs of the real chunker judged by the resynchronisation oracle (incl. the F5-shaped family).",
+        level_note="Trusted: as C09.",
+        technique="Lean 4 proof (window locality of the pure rule, lockstep induction over the common suffix) + differential correspondence",
+        design_ref="DESIGN.md 5/C10",
+        module="Bita.Props.C10",
+        level="proof",
+        required_theorems=["spec_resync", "fixed_resync", "resync"],
+        suites=dict(quick=[("l1", "c10")], thorough=[("l1", "c10")]),
+        rule="random (P1,P2,S) triples incl. empty prefixes and S starting with window non-zero bytes followed by >= window zeros; both "
+             "streams chunked by the real chunker; oracle: identical continuation after the first common boundary >= window into S; "
+             "both streams also compared with the model",
+        trusted_base=LEAN_TB,
+        assumptions=["valid configuration (Config.Valid); fixed-size: prefixes aligned modulo the size"],
     ),
 }
